@@ -1,5 +1,5 @@
 (* Wire codecs: sx <-> model values.  Only used by the correspondence driver. *)
-From HT Require Import Model.Str Model.Sx Model.Tree Model.Render Model.Concat.
+From HT Require Import Model.Str Model.Sx Model.Tree Model.Render Model.Concat Spec.Tokenizer.
 
 Definition aval_of_sx (x : sx) : option aval :=
   match x with
@@ -112,4 +112,18 @@ Fixpoint cexpr_of_sx (x : sx) : option cexpr :=
 Definition sx_cval (v : cval) : sx :=
   match v with
   | CStr s => L [A 0; sx_str s] | CHtml s => L [A 1; sx_str s] | CObj s => L [A 2; sx_str s]
+  end.
+
+(* C01 parsed forests *)
+Fixpoint sx_elem (e : elem) : sx :=
+  match e with
+  | EText s => L [A 0; sx_str s]
+  | EElem n a kids =>
+    L [A 1; sx_str n; L (map (fun kv => L [sx_str (fst kv); sx_str (snd kv)]) a); L (map sx_elem kids)]
+  end.
+Definition sx_token (t : token) : sx :=
+  match t with
+  | TStart n a sc => L [A 0; sx_str n; L (map (fun kv => L [sx_str (fst kv); sx_str (snd kv)]) a); sx_bool sc]
+  | TEnd n => L [A 1; sx_str n]
+  | TChars s => L [A 2; sx_str s]
   end.
